@@ -461,6 +461,11 @@ func ruleRecoveryLimitsAreConfigured(c *Ctx, r *Reporter) {
 // walkCoversAll: the index walk visits every element of the field's slice: a range loop does; a three-clause loop must
 // be bounded by the slice's own length (asc: i < len(s); desc: i >= 0 / n > 0 — the start is checked by IndexWalks).
 func walkCoversAll(w *IndexWalk, fv *types.Var) bool {
+	return walkCoversAllOf(w, func(v ssa.Value) bool { return isLoadOfField(v, fv) })
+}
+
+// walkCoversAllOf: as walkCoversAll, for a slice recognised by isSlice (a parameter, say).
+func walkCoversAllOf(w *IndexWalk, isSlice func(ssa.Value) bool) bool {
 	h := w.Loop.Header
 	if h.Comment == "rangeindex.loop" {
 		return true
@@ -477,7 +482,7 @@ func walkCoversAll(w *IndexWalk, fv *types.Var) bool {
 		return false
 	}
 	x, y, op := bo.X, bo.Y, bo.Op
-	isLenOf := func(v ssa.Value) bool { la := lenArgOf(v); return la != nil && isLoadOfField(la, fv) }
+	isLenOf := func(v ssa.Value) bool { la := lenArgOf(v); return la != nil && isSlice(la) }
 	if w.Dir == "asc" {
 		if isLenOf(x) {
 			x, y = y, x
@@ -499,9 +504,22 @@ func walkCoversAll(w *IndexWalk, fv *types.Var) bool {
 			op = token.GTR
 		}
 	}
-	_, isPhi := x.(*ssa.Phi)
+	ph, isPhi := x.(*ssa.Phi)
 	k, isK := constInt(y)
-	return isPhi && isK && ((op == token.GEQ && k == 0) || (op == token.GTR && (k == 0 || k == -1)))
+	if !isPhi || !isK {
+		return false
+	}
+	// plain form s[i] (i runs len-1 .. 0): i >= 0 / i > -1; countdown form s[n-1] (n runs len .. 1): n > 0 / n >= 1
+	plain := false
+	for _, ia := range w.IndexAddr {
+		if ia.Index == ssa.Value(ph) {
+			plain = true
+		}
+	}
+	if plain {
+		return (op == token.GEQ && k == 0) || (op == token.GTR && k == -1)
+	}
+	return (op == token.GTR && k == 0) || (op == token.GEQ && k == 1)
 }
 
 // ruleBatchFrame (C03, crash clause): a batch is logged as one ordinary record per operation. For recovery to refuse a
@@ -1092,6 +1110,40 @@ func ruleSelectionTakesOldest(c *Ctx, r *Reporter) {
 				less = x
 			}
 		})
+		if less == nil {
+			// the copy-and-sort may live in a helper of the strategy (levelFilesOldestFirst(level)): look one level down
+			AllInstrs(fn, false, func(_ *ssa.Function, ins ssa.Instruction) {
+				call, ok := ins.(*ssa.Call)
+				if !ok {
+					return
+				}
+				h := call.Call.StaticCallee()
+				if h == nil || h.Pkg != fn.Pkg || len(h.Blocks) == 0 || less != nil {
+					return
+				}
+				AllInstrs(h, false, func(_ *ssa.Function, x ssa.Instruction) {
+					hc, ok := x.(*ssa.Call)
+					if !ok || (staticName(hc) != "sort.Slice" && staticName(hc) != "sort.SliceStable") || len(hc.Call.Args) < 2 {
+						return
+					}
+					pos = ins
+					switch y := hc.Call.Args[1].(type) {
+					case *ssa.MakeClosure:
+						less, _ = y.Fn.(*ssa.Function)
+					case *ssa.Call:
+						if h2 := y.Call.StaticCallee(); h2 != nil {
+							for _, ret := range Returns(h2) {
+								if len(ret.Results) == 1 {
+									if mc, ok := ret.Results[0].(*ssa.MakeClosure); ok {
+										less, _ = mc.Fn.(*ssa.Function)
+									}
+								}
+							}
+						}
+					}
+				})
+			})
+		}
 		if less == nil || len(less.Params) != 2 {
 			r.Bad(cons, c.FnPos(fn), "the files of the level are not sorted by a recognisable comparator before a subset is taken: which files leave the level first is not decided by age")
 			continue
@@ -1778,4 +1830,1167 @@ func ruleErrorStateRetries(c *Ctx, r *Reporter) {
 		return
 	}
 	r.OK(cons, c.FnPos(fn), fmt.Sprintf("%d exit(s) besides cancellation, all through SetState(StateConnecting); no plain receive", len(exits)))
+}
+
+// ruleNoSharedMapHandedOut (round 7): a map kept in a field of a struct that has its own mutex is shared state; a method
+// that returns that very map hands every caller the same object, and callers do write into and range over result maps
+// (the stats layers add keys to what they are given). Returned maps must be built for the caller (fresh, or a copy).
+func ruleNoSharedMapHandedOut(c *Ctx, r *Reporter) {
+	r.Rule("no-shared-map-handed-out", 5)
+	hasMutex := func(t types.Type) bool {
+		st, ok := deref(t).Underlying().(*types.Struct)
+		if !ok {
+			return false
+		}
+		for i := 0; i < st.NumFields(); i++ {
+			if strings.HasPrefix(st.Field(i).Type().String(), "sync.") {
+				return true
+			}
+		}
+		return false
+	}
+	n := 0
+	for _, fn := range c.KevoFns {
+		p := pkgOf(fn)
+		if !strings.HasPrefix(p, "pkg/") || strings.HasPrefix(p, "pkg/client") || fn.Parent() != nil {
+			continue
+		}
+		res := fn.Signature.Results()
+		for i := 0; i < res.Len(); i++ {
+			if _, isMap := res.At(i).Type().Underlying().(*types.Map); !isMap {
+				continue
+			}
+			n++
+			bad := ""
+			var pos ssa.Instruction
+			for _, ret := range Returns(fn) {
+				if i >= len(ret.Results) {
+					continue
+				}
+				var visit func(v ssa.Value, d int)
+				visit = func(v ssa.Value, d int) {
+					if d > 6 || v == nil {
+						return
+					}
+					switch x := v.(type) {
+					case *ssa.Phi:
+						for _, e := range x.Edges {
+							visit(e, d+1)
+						}
+					case *ssa.UnOp:
+						if x.Op == token.MUL {
+							if fa, ok := x.X.(*ssa.FieldAddr); ok && hasMutex(fa.X.Type()) {
+								bad = Path(v)
+								pos = ret
+							}
+							if al, ok := x.X.(*ssa.Alloc); ok {
+								if sv := singleStore(al); sv != nil {
+									visit(sv, d+1)
+								}
+							}
+						}
+					}
+				}
+				visit(ReturnValue(ret, i), 0)
+			}
+			cons := FnName(fn) + ":result#" + fmt.Sprint(i)
+			if bad != "" {
+				r.Bad(cons, c.InsPos(pos), "the method returns the map kept in "+bad+" itself: every caller gets the same object, and callers add keys to and range over result maps without the owner's lock — concurrent calls end in 'concurrent map writes' / 'concurrent map iteration and map write'")
+			} else {
+				r.OK(cons, c.FnPos(fn), "the returned map is not a field of a lock-protected struct")
+			}
+		}
+	}
+	_ = n
+}
+
+// ruleFragmentsConcatenated (round 7): the reader rebuilds a fragmented entry by CONCATENATING the fragment payloads —
+// fragment sizes are whatever the writer produced (the first fragment is 13 bytes plus the key chunk, not a full
+// record). In processFragments every fragment is copied behind the previous one: either append(combined, frag...) in
+// the loop, or copy(combined[off:], frag) with off starting at 0 and advancing by len(frag) of the same fragment.
+func ruleFragmentsConcatenated(c *Ctx, r *Reporter) {
+	r.Rule("fragments-are-concatenated", 1)
+	fn := c.Func("pkg/wal", "Reader", "processFragments")
+	cons := "wal.Reader.processFragments"
+	if fn == nil {
+		r.Unresolved(cons, "not found")
+		return
+	}
+	ok := false
+	why := "no copy of the fragments into a combined buffer found"
+	var pos ssa.Instruction
+	AllInstrs(fn, false, func(_ *ssa.Function, ins ssa.Instruction) {
+		call, isCall := ins.(*ssa.Call)
+		if !isCall {
+			return
+		}
+		b, isB := call.Call.Value.(*ssa.Builtin)
+		if !isB {
+			return
+		}
+		inLoop := false
+		for _, l := range GenericLoops(fn) {
+			if l.Contains(call.Block()) {
+				inLoop = true
+			}
+		}
+		if !inLoop {
+			return
+		}
+		switch b.Name() {
+		case "append":
+			// combined = append(combined, frag...)
+			if _, isPhi := call.Call.Args[0].(*ssa.Phi); isPhi && len(call.Call.Args) == 2 {
+				ok = true
+				pos = ins
+			}
+		case "copy":
+			pos = ins
+			dst, isSl := call.Call.Args[0].(*ssa.Slice)
+			src := call.Call.Args[1]
+			if !isSl || dst.Low == nil {
+				why = "the fragments are not copied to a running offset"
+				return
+			}
+			ph, isPhi := dst.Low.(*ssa.Phi)
+			if !isPhi {
+				why = "the destination offset of a fragment (" + Path(dst.Low) + ") is not the running total of the lengths of the fragments before it: fragments are not all of one size (the first is 13 bytes plus the key chunk), so a fixed slot per fragment leaves gaps that the parser reads as lengths"
+				return
+			}
+			initOK, stepOK := false, false
+			for i, e := range ph.Edges {
+				pred := ph.Block().Preds[i]
+				if ph.Block().Dominates(pred) { // back edge
+					if bo, isBo := e.(*ssa.BinOp); isBo && bo.Op == token.ADD {
+						for _, pair := range [][2]ssa.Value{{bo.X, bo.Y}, {bo.Y, bo.X}} {
+							if pair[0] == ssa.Value(ph) && lenArgOf(pair[1]) != nil && sameValue(lenArgOf(pair[1]), src) {
+								stepOK = true
+							}
+						}
+					}
+				} else if k, isK := constInt(e); isK && k == 0 {
+					initOK = true
+				}
+			}
+			if initOK && stepOK {
+				ok = true
+			} else {
+				why = "the running offset does not start at 0 and advance by len(fragment) of the fragment just copied"
+			}
+		}
+	})
+	if pos == nil {
+		r.Check(false, cons, c.FnPos(fn), "", why)
+		return
+	}
+	r.Check(ok, cons, c.InsPos(pos), "every fragment is copied directly behind the previous one", why)
+}
+
+// ruleTxReadsUnderTxLock (round 7): Commit and Rollback take TransactionImpl.mu; a read of the same transaction that
+// is in flight must finish before they return, otherwise the read can reach storage after the transaction ended — and
+// after a later writer committed. Every storage access of Get / NewIterator / NewRangeIterator happens with tx.mu held.
+func ruleTxReadsUnderTxLock(c *Ctx, r *Reporter) {
+	r.Rule("tx-reads-hold-the-transaction-lock", 3)
+	li := c.Locks()
+	storageF := c.Field("pkg/transaction", "TransactionImpl", "storage")
+	if storageF == nil {
+		r.Unresolved("transaction.TransactionImpl.storage", "not found")
+		return
+	}
+	for _, mn := range []string{"Get", "NewIterator", "NewRangeIterator"} {
+		fn := c.Func("pkg/transaction", "TransactionImpl", mn)
+		cons := "transaction.TransactionImpl." + mn
+		if fn == nil {
+			r.Unresolved(cons, "not found")
+			continue
+		}
+		n := 0
+		var bad ssa.Instruction
+		AllInstrs(fn, false, func(_ *ssa.Function, ins ssa.Instruction) {
+			call, ok := ins.(*ssa.Call)
+			if !ok || !call.Call.IsInvoke() || !isLoadOfField(call.Call.Value, storageF) {
+				return
+			}
+			n++
+			if !li.HeldAt(ins).Holds("transaction.TransactionImpl.mu", "R") {
+				bad = ins
+			}
+		})
+		switch {
+		case n == 0:
+			r.Undecided(cons, c.FnPos(fn), "no storage access found")
+		case bad != nil:
+			r.Bad(cons, c.InsPos(bad), "the storage is read without TransactionImpl.mu held (held: "+li.HeldAt(bad).String()+"): Commit/Rollback no longer wait for this read, so it can reach storage after the transaction has ended and a later writer has committed — a read-only transaction sees two states")
+		default:
+			r.OK(cons, c.FnPos(fn), fmt.Sprintf("%d storage access(es), all with TransactionImpl.mu held", n))
+		}
+	}
+}
+
+// ruleScanSourcesComplete (round 7): the scan iterator is built from EVERY memtable and EVERY SSTable it is given: an
+// immutable memtable is readable only through the pool until its SSTable is registered, so skipping any source makes
+// scans miss data that Get still finds. In createBaseIterator each of the two loops walks its whole slice, has no early
+// exit, and appends an iterator on every iteration.
+func ruleScanSourcesComplete(c *Ctx, r *Reporter) {
+	r.Rule("scan-sources-are-complete", 2)
+	fn := c.Func("pkg/engine/iterator", "Factory", "createBaseIterator")
+	if fn == nil {
+		r.Unresolved("iterator.Factory.createBaseIterator", "not found")
+		return
+	}
+	for _, p := range fn.Params {
+		if _, isSlice := p.Type().Underlying().(*types.Slice); !isSlice {
+			continue
+		}
+		cons := "iterator.Factory.createBaseIterator:" + p.Name()
+		okAny := false
+		why := "no loop over " + p.Name() + " found: these sources are not part of the scan"
+		var pos ssa.Instruction
+		for _, w := range IndexWalks(fn) {
+			on := false
+			for _, ia := range w.IndexAddr {
+				if ia.X == ssa.Value(p) {
+					on = true
+				}
+			}
+			if !on {
+				continue
+			}
+			loop := w.Loop
+			pos = loop.Header.Instrs[0]
+			if w.Dir == "?" || !walkCoversAllOf(w, func(v ssa.Value) bool { return v == ssa.Value(p) }) {
+				why = "the walk over " + p.Name() + " does not cover the whole slice (start, end or step): an element — the oldest table, say — is never a source of the scan, and keys that live only there are missing from every scan while Get finds them"
+				continue
+			}
+			early := false
+			for _, b := range fn.Blocks {
+				if !loop.Contains(b) || b == loop.Header {
+					continue
+				}
+				for _, s := range b.Succs {
+					if !loop.Contains(s) {
+						early = true
+					}
+				}
+			}
+			if early {
+				why = "the loop over " + p.Name() + " can be left early"
+				continue
+			}
+			var body *ssa.BasicBlock
+			for _, s := range loop.Header.Succs {
+				if loop.Contains(s) {
+					body = s
+				}
+			}
+			first := loop.Header.Instrs[0]
+			isAppend := func(i ssa.Instruction) bool {
+				call, ok := i.(*ssa.Call)
+				if !ok {
+					return false
+				}
+				b, ok := call.Call.Value.(*ssa.Builtin)
+				return ok && b.Name() == "append"
+			}
+			if body == nil {
+				continue
+			}
+			if hit, _ := ReachBlock(body, func(i ssa.Instruction) bool { return i == first }, isAppend, nil); hit != nil {
+				why = "an iteration of the loop over " + p.Name() + " can skip the append: that source is left out of the scan (an immutable memtable whose SSTable is not registered yet is readable through Get but invisible to scans; two scans of one read-only transaction differ)"
+				continue
+			}
+			okAny = true
+		}
+		if pos == nil {
+			r.Check(false, cons, c.FnPos(fn), "", why)
+		} else {
+			r.Check(okAny, cons, c.InsPos(pos), "every element contributes an iterator", why)
+		}
+	}
+}
+
+// ruleSealOnlyWhenReplaced (round 7): MemTable.Put/Delete silently ignore writes to a sealed table, so the pool's ACTIVE
+// table may be sealed only by code that installs a new active table before it returns. Who may call SetImmutable is a
+// reviewed table; in the pool's own functions a store to MemTablePool.active must follow the sealing on every path.
+var sealers = map[string]string{
+	"memtable.MemTablePool.SwitchToNewMemTable": "seals the old active table and installs a fresh one",
+	"memtable.MemTablePool.SetActiveMemTable":   "recovery: demotes the previous active table, installs the given one",
+	"memtable.RecoverFromWAL":                   "recovery: seals a full table before starting the next one (not yet in a pool)",
+	"storage.Manager.recoverFromWAL":            "recovery: seals the tables that were already demoted by SetActiveMemTable",
+}
+
+func ruleSealOnlyWhenReplaced(c *Ctx, r *Reporter) {
+	r.Rule("active-table-sealed-only-when-replaced", 4)
+	seal := c.Func("pkg/memtable", "MemTable", "SetImmutable")
+	activeF := c.Field("pkg/memtable", "MemTablePool", "active")
+	if seal == nil || activeF == nil {
+		r.Unresolved("memtable.MemTable.SetImmutable / MemTablePool.active", "not found")
+		return
+	}
+	for _, fn := range c.KevoFns {
+		AllInstrs(fn, false, func(_ *ssa.Function, ins ssa.Instruction) {
+			call, ok := ins.(*ssa.Call)
+			if !ok || call.Call.StaticCallee() != seal {
+				return
+			}
+			name := FnName(topParent(fn))
+			cons := name + ":SetImmutable"
+			why, reviewed := sealers[name]
+			if !reviewed {
+				// a helper extracted from a reviewed function (single same-package caller): judged at the caller
+				if owner := c.siteOwner(topParent(fn)); owner != topParent(fn) {
+					if w2, ok2 := sealers[FnName(owner)]; ok2 {
+						okAll := true
+						nSites := 0
+						for _, e := range c.Callers(topParent(fn)) {
+							site, isCall := e.Site.(*ssa.Call)
+							if !isCall || topParent(e.Caller.Func) != owner {
+								continue
+							}
+							nSites++
+							missing, _ := Reach(owner, site, func(i ssa.Instruction) bool { _, isRet := i.(*ssa.Return); return isRet }, func(i ssa.Instruction) bool {
+								st, isSt := i.(*ssa.Store)
+								return isSt && fieldVarOf(st.Addr) == activeF
+							})
+							if missing != nil {
+								okAll = false
+							}
+						}
+						r.Check(okAll && nSites > 0, FnName(owner)+":SetImmutable", c.InsPos(ins), w2+" (through the helper "+name+"); a store to MemTablePool.active follows the helper call on every path", "the pool seals a table (in "+name+") and can return without installing a new active table: writes into the sealed active table are silently dropped")
+						return
+					}
+				}
+			}
+			if !reviewed {
+				r.Bad(cons, c.InsPos(ins), "a table is sealed outside the reviewed places: if it is (or stays) the pool's active table, every later Put/Delete into it is silently dropped while the caller is told it succeeded — the rest of a batch that crosses the size limit vanishes until the next restart")
+				return
+			}
+			if recvTypeName(topParent(fn)) == "memtable.MemTablePool" {
+				// a new active table is installed afterwards on every path
+				var rets []ssa.Instruction
+				for _, ret := range Returns(fn) {
+					rets = append(rets, ret)
+				}
+				missing, _ := Reach(fn, ins, func(i ssa.Instruction) bool {
+					for _, x := range rets {
+						if x == i {
+							return true
+						}
+					}
+					return false
+				}, func(i ssa.Instruction) bool {
+					st, isSt := i.(*ssa.Store)
+					return isSt && fieldVarOf(st.Addr) == activeF
+				})
+				r.Check(missing == nil, cons, c.InsPos(ins), why+"; a store to MemTablePool.active follows on every path", "the pool seals a table and can return without installing a new active table: writes into the sealed active table are silently dropped")
+				return
+			}
+			r.OK(cons, c.InsPos(ins), why)
+		})
+	}
+}
+
+// ruleClosedMeansClosed (round 7): storage retries an operation only on ErrWALRotating; ErrWALClosed is final. A log that
+// is ROTATING must therefore never answer ErrWALClosed: every return of ErrWALClosed in pkg/wal that is decided by the
+// status word sits on the status == WALStatusClosed edge (a commit whose batch is already buffered and whose sync is told
+// 'closed' reports failure, yet the rotation's Close flushes the batch — the failed transaction reappears after a restart).
+func ruleClosedMeansClosed(c *Ctx, r *Reporter) {
+	r.Rule("closed-answer-only-when-closed", 5)
+	a := getWalAnchors(c, r)
+	if !a.ok {
+		return
+	}
+	gClosed := c.Global("pkg/wal", "ErrWALClosed")
+	kClosed := c.Const("pkg/wal", "WALStatusClosed")
+	if gClosed == nil || kClosed == nil {
+		r.Unresolved("wal.ErrWALClosed / WALStatusClosed", "not found")
+		return
+	}
+	closedV, _ := constantInt(kClosed)
+	isStatus := func(v ssa.Value) bool {
+		if call, ok := v.(*ssa.Call); ok {
+			name, addr, _ := atomicCall(call)
+			return strings.HasPrefix(name, "Load") && fieldVarOf(addr) == a.status
+		}
+		return isLoadOfField(v, a.status)
+	}
+	isClosed := func(cond ssa.Value) (bool, bool) {
+		bo, ok := cond.(*ssa.BinOp)
+		if !ok || (bo.Op != token.EQL && bo.Op != token.NEQ) {
+			return false, false
+		}
+		x, y := bo.X, bo.Y
+		if _, isK := constInt(x); isK {
+			x, y = y, x
+		}
+		k, isK := constInt(y)
+		if !isK || k != closedV || !isStatus(stripNumConv(x)) {
+			return false, false
+		}
+		return bo.Op == token.EQL, bo.Op == token.NEQ
+	}
+	anyStatusTest := func(cond ssa.Value) (bool, bool) {
+		bo, ok := cond.(*ssa.BinOp)
+		if !ok {
+			return false, false
+		}
+		if isStatus(stripNumConv(bo.X)) || isStatus(stripNumConv(bo.Y)) {
+			return true, true
+		}
+		return false, false
+	}
+	for _, fn := range c.KevoFns {
+		if pkgOf(fn) != "pkg/wal" {
+			continue
+		}
+		for _, ret := range Returns(fn) {
+			if !returnsGlobalErr(ret, gClosed) {
+				continue
+			}
+			cons := FnName(fn) + ":ErrWALClosed"
+			if !GuardedBy(ret.Block(), anyStatusTest) {
+				r.Info(cons, c.InsPos(ret), "not decided by the status word")
+				continue
+			}
+			r.Check(GuardedBy(ret.Block(), isClosed), cons, c.InsPos(ret), "answered only on status == WALStatusClosed",
+				"ErrWALClosed is answered on a status test other than '== WALStatusClosed': a log that is only rotating reports 'closed', which the storage layer does not retry — a commit whose batch is already in the buffer fails, the rotation's Close flushes the batch anyway, and the failed transaction is there after a restart")
+		}
+	}
+}
+
+// ruleSkipAfterDamageDropsFragments (round 7): after a damaged record the replay loop resynchronises and goes on reading.
+// Fragments collected before the damage (Reader.fragments) must not survive into what is read next: either the
+// resynchronisation skips far enough that the rest of the entry cannot follow (the tree's 32 KiB skip), or the pending
+// fragments are dropped. Structural part decided here: recoverFromCorruption either reads ahead in a loop of at least
+// MaxRecordSize iterations or resets Reader.fragments.
+func ruleSkipAfterDamageDropsFragments(c *Ctx, r *Reporter) {
+	r.Rule("resync-drops-pending-fragments", 1)
+	fn := c.Func("pkg/wal", "", "recoverFromCorruption")
+	fragF := c.Field("pkg/wal", "Reader", "fragments")
+	maxRec := c.Const("pkg/wal", "MaxRecordSize")
+	cons := "wal.recoverFromCorruption"
+	if fn == nil || fragF == nil || maxRec == nil {
+		r.Unresolved(cons+" / Reader.fragments / MaxRecordSize", "not found")
+		return
+	}
+	maxV, _ := constantInt(maxRec)
+	resets := false
+	skips := int64(0)
+	AllInstrs(fn, false, func(_ *ssa.Function, ins ssa.Instruction) {
+		if st, ok := ins.(*ssa.Store); ok && fieldVarOf(st.Addr) == fragF {
+			resets = true
+		}
+	})
+	for _, l := range GenericLoops(fn) {
+		reads := false
+		for _, b := range fn.Blocks {
+			if l.Contains(b) {
+				for _, ins := range b.Instrs {
+					if call, ok := ins.(*ssa.Call); ok && call.Call.StaticCallee() != nil && strings.HasPrefix(call.Call.StaticCallee().Name(), "Read") {
+						reads = true
+					}
+				}
+			}
+		}
+		if !reads || len(l.Header.Instrs) == 0 {
+			continue
+		}
+		if iff, ok := l.Header.Instrs[len(l.Header.Instrs)-1].(*ssa.If); ok {
+			if bo, ok := iff.Cond.(*ssa.BinOp); ok {
+				for _, o := range []ssa.Value{bo.X, bo.Y} {
+					if k, isK := constInt(o); isK && k > skips {
+						skips = k
+					}
+				}
+			}
+		}
+	}
+	r.Check(resets || skips >= maxV, cons, c.FnPos(fn), fmt.Sprintf("resets the pending fragments: %v; reads ahead %d bytes (a record holds at most %d)", resets, skips, maxV),
+		"after a damaged record the reader carries on with the fragments it had collected (Reader.fragments is not reset and nothing is skipped): the first fragment of a torn entry is glued to later fragments with the damaged one missing, and recovery delivers the key with a value nobody wrote")
+}
+
+// ruleBuilderCopiesValues (round 7): the block builder keeps what it is given until the block is serialized (at the
+// 64 KiB flush or at Finish). Key and value stored into Builder.entries are copies made in AddWithSequence (nil stays nil
+// for a deletion marker): a caller that reuses its buffer would otherwise change what is written.
+func ruleBuilderCopiesValues(c *Ctx, r *Reporter) {
+	r.Rule("builder-copies-what-it-keeps", 2)
+	fn := c.Func("pkg/sstable/block", "Builder", "AddWithSequence")
+	if fn == nil {
+		r.Unresolved("block.Builder.AddWithSequence", "not found")
+		return
+	}
+	n := 0
+	AllInstrs(fn, false, func(_ *ssa.Function, ins ssa.Instruction) {
+		st, ok := ins.(*ssa.Store)
+		if !ok {
+			return
+		}
+		fa, ok := st.Addr.(*ssa.FieldAddr)
+		if !ok {
+			return
+		}
+		name := fieldName(fa)
+		if name != "Key" && name != "Value" {
+			return
+		}
+		if pt, ok := fa.X.Type().Underlying().(*types.Pointer); !ok || !strings.HasSuffix(pt.Elem().String(), "block.Entry") {
+			return
+		}
+		n++
+		r.Check(isFreshBytes(st.Val, 0), "block.Builder.AddWithSequence:Entry."+name, c.InsPos(ins), "a copy made here (nil stays nil)",
+			"the builder keeps the caller's "+strings.ToLower(name)+" slice ("+Path(st.Val)+") until the block is serialized: a caller that reuses its buffer before the block is flushed changes the bytes that are written — keys, order and checksums stay valid, the values are wrong")
+	})
+	if n == 0 {
+		r.Undecided("block.Builder.AddWithSequence", c.FnPos(fn), "no store to Entry.Key/Value found")
+	}
+}
+
+// ruleLoadBuildsFreshInfos (round 7): Close() closes the readers of the loaded SSTableInfo objects and sets them to nil,
+// CompactFiles skips an input whose reader is nil, and the callers then delete every selected input. What stands between
+// these three and data loss is that LoadSSTables — called at the start of every cycle — describes every file afresh:
+// each info it files under a level is allocated in this call with a reader opened in this call.
+func ruleLoadBuildsFreshInfos(c *Ctx, r *Reporter) {
+	r.Rule("load-describes-every-file-afresh", 1)
+	fn := c.Func("pkg/compaction", "BaseCompactionStrategy", "LoadSSTables")
+	cons := "compaction.BaseCompactionStrategy.LoadSSTables"
+	if fn == nil {
+		r.Unresolved(cons, "not found")
+		return
+	}
+	open := c.Func("pkg/sstable", "", "OpenReader")
+	n := 0
+	bad := ""
+	var pos ssa.Instruction
+	AllInstrs(fn, false, func(_ *ssa.Function, ins ssa.Instruction) {
+		call, ok := ins.(*ssa.Call)
+		if !ok {
+			return
+		}
+		b, isB := call.Call.Value.(*ssa.Builtin)
+		if !isB || b.Name() != "append" || len(call.Call.Args) != 2 {
+			return
+		}
+		sl, ok := call.Type().Underlying().(*types.Slice)
+		if !ok || !strings.HasSuffix(sl.Elem().String(), "compaction.SSTableInfo") {
+			return
+		}
+		// the appended element: the single store into the varargs array
+		va, ok := call.Call.Args[1].(*ssa.Slice)
+		if !ok {
+			return
+		}
+		arr, ok := va.X.(*ssa.Alloc)
+		if !ok {
+			return
+		}
+		for _, ref := range *arr.Referrers() {
+			ia, ok := ref.(*ssa.IndexAddr)
+			if !ok {
+				continue
+			}
+			for _, u := range *ia.Referrers() {
+				st, ok := u.(*ssa.Store)
+				if !ok {
+					continue
+				}
+				n++
+				pos = ins
+				al, isAlloc := st.Val.(*ssa.Alloc)
+				if !isAlloc || !al.Heap {
+					bad = Path(st.Val)
+					continue
+				}
+				// its Reader field comes from OpenReader in this call
+				okReader := false
+				for _, r2 := range *al.Referrers() {
+					fa, ok := r2.(*ssa.FieldAddr)
+					if !ok || fieldName(fa) != "Reader" {
+						continue
+					}
+					for _, u2 := range *fa.Referrers() {
+						if st2, ok := u2.(*ssa.Store); ok {
+							if ex, ok := st2.Val.(*ssa.Extract); ok {
+								if oc, ok := ex.Tuple.(*ssa.Call); ok && oc.Call.StaticCallee() == open {
+									okReader = true
+								}
+							}
+						}
+					}
+				}
+				if !okReader {
+					bad = "an info whose Reader is not the result of OpenReader in this call"
+				}
+			}
+		}
+	})
+	if n == 0 {
+		r.Undecided(cons, c.FnPos(fn), "no info is filed under a level")
+		return
+	}
+	r.Check(bad == "", cons, c.InsPos(pos), "every info filed under a level is allocated here with a reader opened here",
+		"LoadSSTables files "+bad+" under a level instead of describing the file afresh: infos kept from an earlier load have had their readers closed and set to nil by Close(); CompactFiles skips inputs without a reader and the callers delete every selected input — a compaction after a pause merges the old files as empty and deletes them")
+}
+
+// ruleDeltaBaseIsPredecessor (round 7): keys inside a restart interval are delta-encoded against the PREVIOUS key, and
+// decodeNext rebuilds a key from Iterator.currentKey. After every successful decodeNext the caller must therefore make
+// the decoded key the current one before the next decodeNext (or before it reports success): on every path from the
+// ok-edge of a decodeNext call to another decodeNext call or to a return, a store currentKey := <that key> is passed
+// (unless decodeNext stores it itself).
+func ruleDeltaBaseIsPredecessor(c *Ctx, r *Reporter) {
+	r.Rule("delta-base-is-the-predecessor", 3)
+	dn := c.Func("pkg/sstable/block", "Iterator", "decodeNext")
+	curKey := c.Field("pkg/sstable/block", "Iterator", "currentKey")
+	if dn == nil || curKey == nil {
+		r.Unresolved("block.Iterator.decodeNext / currentKey", "not found")
+		return
+	}
+	// does decodeNext store the key itself on every success exit?
+	self := true
+	nSucc := 0
+	for _, ret := range Returns(dn) {
+		if len(ret.Results) < 3 {
+			continue
+		}
+		if b, isK := constBool(ReturnValue(ret, 2)); isK && !b {
+			continue
+		}
+		nSucc++
+		var rets = []ssa.Instruction{ret}
+		if bad, _ := MustPass(dn, rets, func(i ssa.Instruction) bool {
+			st, ok := i.(*ssa.Store)
+			return ok && fieldVarOf(st.Addr) == curKey
+		}); bad != nil {
+			self = false
+		}
+	}
+	if self && nSucc > 0 {
+		r.OK("block.Iterator.decodeNext:sets-current-key", c.FnPos(dn), "decodeNext makes the decoded key the current one itself")
+		return
+	}
+	for _, fn := range c.KevoFns {
+		if pkgOf(fn) != "pkg/sstable/block" || fn == dn {
+			continue
+		}
+		idx := 0
+		AllInstrs(fn, false, func(_ *ssa.Function, ins ssa.Instruction) {
+			call, ok := ins.(*ssa.Call)
+			if !ok || call.Call.StaticCallee() != dn {
+				return
+			}
+			idx++
+			cons := fmt.Sprintf("%s:decodeNext#%d", FnName(fn), idx)
+			// the ok result and the key result of this call
+			var okV, keyV ssa.Value
+			for _, ref := range *call.Referrers() {
+				if ex, isEx := ref.(*ssa.Extract); isEx {
+					switch ex.Index {
+					case 0:
+						keyV = ex
+					case 2:
+						okV = ex
+					}
+				}
+			}
+			if okV == nil || keyV == nil {
+				r.Undecided(cons, c.InsPos(ins), "result of decodeNext not destructured")
+				return
+			}
+			failed := func(cond ssa.Value) (bool, bool) { // fact: this decode failed
+				if cond == okV {
+					return false, true
+				}
+				if u, isU := cond.(*ssa.UnOp); isU && u.Op == token.NOT && u.X == okV {
+					return true, false
+				}
+				return false, false
+			}
+			setsKey := func(i ssa.Instruction) bool {
+				st, isSt := i.(*ssa.Store)
+				return isSt && fieldVarOf(st.Addr) == curKey && (st.Val == keyV || flowsFromPred(st.Val, func(v ssa.Value) bool { return v == keyV }, 0, map[ssa.Value]bool{}))
+			}
+			target := func(i ssa.Instruction) bool {
+				if i == ins {
+					return false
+				}
+				if c2, isC := i.(*ssa.Call); isC && c2.Call.StaticCallee() == dn {
+					return true
+				}
+				_, isRet := i.(*ssa.Return)
+				return isRet
+			}
+			hit, path := ReachE(fn, ins, target, setsKey, PruneFactEdges(failed))
+			// a hit through the loop back to the same call is caught as the next iteration's call: ReachE excludes ins itself,
+			// so look for the back edge separately
+			if hit == nil {
+				hit, path = ReachE(fn, ins, func(i ssa.Instruction) bool { return i == ins }, setsKey, PruneFactEdges(failed))
+			}
+			if hit != nil {
+				r.Bad(cons, c.InsPos(ins), "after a successful decodeNext the decoded key is not made the current key before "+c.InsPos(hit)+": the next key of the restart interval is rebuilt against an older key (its shared prefix is taken from the wrong predecessor) — lookups miss keys, or return a different key's entry", c.PathString(path)...)
+			} else {
+				r.OK(cons, c.InsPos(ins), "the decoded key becomes the current key before the next decode and before every return")
+			}
+		})
+	}
+}
+
+// ruleGetNextSequenceAlwaysAnswers (round 7): the rotation reads the old log's counter through GetNextSequence AFTER it
+// has marked that log as rotating, and hands the value to the new log. GetNextSequence must therefore answer with the
+// counter whatever the status is: every exit returns WAL.nextSequence (a status guard returning 0 turns the hand-over
+// into a no-op, every new log restarts at 1, and a write after a rotation loses against an older version of its key).
+func ruleGetNextSequenceAlwaysAnswers(c *Ctx, r *Reporter) {
+	r.Rule("next-sequence-answered-in-every-state", 1)
+	a := getWalAnchors(c, r)
+	if !a.ok {
+		return
+	}
+	fn := c.Func("pkg/wal", "WAL", "GetNextSequence")
+	cons := "wal.WAL.GetNextSequence"
+	if fn == nil {
+		r.Unresolved(cons, "not found")
+		return
+	}
+	bad := ""
+	var pos ssa.Instruction
+	n := 0
+	for _, ret := range Returns(fn) {
+		n++
+		v := ReturnValue(ret, 0)
+		okV := isLoadOfField(v, a.nextSeq)
+		if call, isCall := v.(*ssa.Call); isCall {
+			name, addr, _ := atomicCall(call)
+			if strings.HasPrefix(name, "Load") && fieldVarOf(addr) == a.nextSeq {
+				okV = true
+			}
+		}
+		if !okV {
+			bad = Path(v)
+			pos = ret
+		}
+	}
+	if pos == nil && n > 0 {
+		pos = Returns(fn)[0]
+	}
+	r.Check(bad == "" && n > 0, cons, c.InsPos(pos), "every exit returns the counter", "an exit returns "+bad+" instead of the counter: the rotation asks a log it has just marked as rotating, gets this answer, and the new log does not continue the numbering — writes after a rotation are numbered below what the memtable already holds and lose against older versions of their keys")
+}
+
+// ruleAppliedPrefixRecorded (session 4): exactly once. ApplyEntries applies a batch entry by entry; when a later entry
+// fails (apply error, decode error, a gap inside the batch) the entries before it ARE applied. The applier's position
+// (expectedNextSeq / maxAppliedSeq) must say so before the failing exit, otherwise the retry applies them again. On every
+// path from the success edge of the apply callback to a failing return a store to the position is passed.
+func ruleAppliedPrefixRecorded(c *Ctx, r *Reporter) {
+	r.Rule("applied-prefix-is-recorded", 1)
+	fn := c.Func("pkg/replication", "WALBatchApplier", "ApplyEntries")
+	expF := c.Field("pkg/replication", "WALBatchApplier", "expectedNextSeq")
+	cons := "replication.WALBatchApplier.ApplyEntries:failing-exit-after-applied-entries"
+	if fn == nil || expF == nil {
+		r.Unresolved("replication.WALBatchApplier.ApplyEntries / expectedNextSeq", "not found")
+		return
+	}
+	var apply *ssa.Call
+	AllInstrs(fn, false, func(_ *ssa.Function, ins ssa.Instruction) {
+		if call, ok := ins.(*ssa.Call); ok {
+			if p, isP := call.Call.Value.(*ssa.Parameter); isP && p.Parent() == fn {
+				apply = call
+			}
+		}
+	})
+	if apply == nil {
+		r.Undecided(cons, c.FnPos(fn), "the apply callback is not called directly")
+		return
+	}
+	failed := func(cond ssa.Value) (bool, bool) {
+		v, trueNonNil, ok := nilTest(cond)
+		if !ok || v != ssa.Value(apply) {
+			return false, false
+		}
+		return trueNonNil, !trueNonNil
+	}
+	hit, path := ReachE(fn, apply, func(i ssa.Instruction) bool {
+		ret, isRet := i.(*ssa.Return)
+		return isRet && ClassifyReturn(ret) == ExitFailure
+	}, func(i ssa.Instruction) bool {
+		st, isSt := i.(*ssa.Store)
+		return isSt && fieldVarOf(st.Addr) == expF
+	}, PruneFactEdges(failed))
+	if hit != nil {
+		r.Bad(cons, c.InsPos(hit), "a failing exit is reachable after an entry of the batch was applied without the applier's position having been advanced: the entries before the failing one are applied but not recorded, and the retry applies them a second time (1:a=1, 2:a=2, 3:fails ⇒ a=1, a=2, a=1, a=2)", c.PathString(path)...)
+		return
+	}
+	r.OK(cons, c.InsPos(apply), "the position is advanced before every failing exit that follows an applied entry")
+}
+
+// cancelGuard: for function fn, the fact "this branch is the arm of a select that received from a Done() channel".
+func cancelGuard(fn *ssa.Function) Fact {
+	type arm struct {
+		sel *ssa.Select
+		idx int
+	}
+	var arms []arm
+	AllInstrs(fn, false, func(_ *ssa.Function, ins ssa.Instruction) {
+		sel, ok := ins.(*ssa.Select)
+		if !ok {
+			return
+		}
+		for i, st := range sel.States {
+			if st.Dir == types.RecvOnly && flowsFromPred(st.Chan, func(v ssa.Value) bool {
+				call, ok := v.(*ssa.Call)
+				return ok && call.Call.IsInvoke() && call.Call.Method.Name() == "Done"
+			}, 0, map[ssa.Value]bool{}) {
+				arms = append(arms, arm{sel, i})
+			}
+		}
+	})
+	return func(cond ssa.Value) (bool, bool) {
+		bo, ok := cond.(*ssa.BinOp)
+		if !ok || bo.Op != token.EQL {
+			return false, false
+		}
+		ex, ok := bo.X.(*ssa.Extract)
+		k, isK := constInt(bo.Y)
+		if !ok || !isK || ex.Index != 0 {
+			return false, false
+		}
+		for _, a := range arms {
+			if ex.Tuple == ssa.Value(a.sel) && int(k) == a.idx {
+				return true, false
+			}
+		}
+		return false, false
+	}
+}
+
+// ruleReplicationLoopNeverGivesUp (round 7): the replica's state loop is what makes a connected replica converge; it
+// may end only when the replica is stopped. Every return of replicationLoop sits on the arm of a select that received
+// from ctx.Done() (a retry budget that returns turns every long catch-up — which on this tree surfaces one error per
+// applied batch — into a permanent stop).
+func ruleReplicationLoopNeverGivesUp(c *Ctx, r *Reporter) {
+	r.Rule("replication-loop-ends-only-when-stopped", 1)
+	fn := c.Func("pkg/replication", "Replica", "replicationLoop")
+	cons := "replication.Replica.replicationLoop"
+	if fn == nil {
+		r.Unresolved(cons, "not found")
+		return
+	}
+	onCancel := cancelGuard(fn)
+	n := 0
+	var bad ssa.Instruction
+	for _, ret := range Returns(fn) {
+		n++
+		if !GuardedBy(ret.Block(), onCancel) {
+			bad = ret
+		}
+	}
+	if bad != nil {
+		r.Bad(cons, c.InsPos(bad), "the state loop can end on a path other than cancellation: once it has returned nothing dials, streams or applies any more — a replica that gives up after a number of failed ticks never converges (and the tree's own STREAMING→STREAMING transition error makes every applied batch count as a failed tick)")
+		return
+	}
+	r.Check(n > 0, cons, c.FnPos(fn), fmt.Sprintf("%d return(s), all on the ctx.Done() arm", n), "the loop has no cancellation exit")
+}
+
+// rulePollSendsWhatItRead (round 7): the catch-up poll reads the entries behind the replica's position and sends them.
+// What it sends — and what its 'nothing to send' exit tests — must be the list as read: re-slicing it (a byte budget,
+// a cap) can cut it down to nothing while the log is ahead, and the poll then reports 'nothing to send' for ever for an
+// entry that no other path delivers.
+func rulePollSendsWhatItRead(c *Ctx, r *Reporter) {
+	r.Rule("poll-sends-what-it-read", 1)
+	fn := c.Func("pkg/replication", "Primary", "sendUpdatedEntries")
+	get := c.Func("pkg/replication", "Primary", "getWALEntriesFromSequence")
+	cons := "replication.Primary.sendUpdatedEntries"
+	if fn == nil || get == nil {
+		r.Unresolved(cons+" / getWALEntriesFromSequence", "not found")
+		return
+	}
+	var read ssa.Value
+	AllInstrs(fn, false, func(_ *ssa.Function, ins ssa.Instruction) {
+		if ex, ok := ins.(*ssa.Extract); ok && ex.Index == 0 {
+			if call, ok := ex.Tuple.(*ssa.Call); ok && call.Call.StaticCallee() == get {
+				read = ex
+			}
+		}
+	})
+	if read == nil {
+		r.Undecided(cons, c.FnPos(fn), "the read of the pending entries was not found")
+		return
+	}
+	var cut ssa.Instruction
+	AllInstrs(fn, false, func(_ *ssa.Function, ins ssa.Instruction) {
+		sl, ok := ins.(*ssa.Slice)
+		if !ok || !types.Identical(sl.Type(), read.Type()) {
+			return
+		}
+		if flowsFromPred(sl.X, func(v ssa.Value) bool { return v == read }, 0, map[ssa.Value]bool{}) {
+			cut = ins
+		}
+	})
+	r.Check(cut == nil, cons, c.InsPos(read.(ssa.Instruction)), "the entries read are sent as read (no re-slicing)",
+		"the list of pending entries is re-sliced before it is tested for emptiness and sent: a budget that the first pending entry exceeds cuts the list down to nothing, the 'nothing to send' exit is taken although the log is ahead, and the next poll does the same — the replica stays connected and behind for ever")
+	if cut != nil {
+		_ = cut
+	}
+}
+
+// ruleConfigUpdateExclusive (round 7): SaveManifest validates, marshals and writes under Config.mu (shared); that is only
+// a consistent snapshot if every writer of the configuration excludes it. Config.Update runs the caller's function with
+// Config.mu held exclusively.
+func ruleConfigUpdateExclusive(c *Ctx, r *Reporter) {
+	r.Rule("config-update-holds-the-exclusive-lock", 1)
+	fn := c.Func("pkg/config", "Config", "Update")
+	cons := "config.Config.Update"
+	if fn == nil {
+		r.Unresolved(cons, "not found")
+		return
+	}
+	li := c.Locks()
+	var cb *ssa.Call
+	AllInstrs(fn, false, func(_ *ssa.Function, ins ssa.Instruction) {
+		if call, ok := ins.(*ssa.Call); ok {
+			if p, isP := call.Call.Value.(*ssa.Parameter); isP && p.Parent() == fn {
+				cb = call
+			}
+		}
+	})
+	if cb == nil {
+		r.Undecided(cons, c.FnPos(fn), "the update callback is not called directly")
+		return
+	}
+	r.Check(li.HeldAt(cb).Holds("config.Config.mu", "W"), cons, c.InsPos(cb), "the caller's update runs with Config.mu held exclusively",
+		"the caller's update runs without Config.mu held exclusively (held: "+li.HeldAt(cb).String()+"): it can interleave with SaveManifest's validate-marshal-write, which then stores a half-applied or invalid configuration and still reports success — the database cannot be reopened")
+}
+
+// ruleDefaultsOnlyForNil (round 7): a caller-supplied configuration is validated as given; the defaults may replace it only
+// when there is none (config == nil). In NewManifest the NewDefaultConfig call sits on the config == nil edge and nowhere
+// else (treating a boundary value such as Version == 0 as 'unset' silently swaps an invalid configuration for the
+// defaults and writes them).
+func ruleDefaultsOnlyForNil(c *Ctx, r *Reporter) {
+	r.Rule("defaults-only-for-a-missing-config", 1)
+	fn := c.Func("pkg/config", "", "NewManifest")
+	def := c.Func("pkg/config", "", "NewDefaultConfig")
+	cons := "config.NewManifest:defaults"
+	if fn == nil || def == nil {
+		r.Unresolved("config.NewManifest / NewDefaultConfig", "not found")
+		return
+	}
+	var cfgP *ssa.Parameter
+	for _, p := range fn.Params {
+		if strings.HasSuffix(p.Type().String(), "config.Config") {
+			cfgP = p
+		}
+	}
+	isNilCfg := func(cond ssa.Value) (bool, bool) {
+		v, trueNonNil, ok := nilTest(cond)
+		if !ok || cfgP == nil || v != ssa.Value(cfgP) {
+			return false, false
+		}
+		return !trueNonNil, trueNonNil
+	}
+	n := 0
+	okAll := true
+	var pos ssa.Instruction
+	AllInstrs(fn, false, func(_ *ssa.Function, ins ssa.Instruction) {
+		call, ok := ins.(*ssa.Call)
+		if !ok || call.Call.StaticCallee() != def {
+			return
+		}
+		n++
+		pos = ins
+		if !GuardedBy(call.Block(), isNilCfg) {
+			okAll = false
+		}
+	})
+	if n == 0 {
+		r.OK(cons, c.FnPos(fn), "NewManifest never substitutes defaults")
+		return
+	}
+	r.Check(okAll, cons, c.InsPos(pos), "the defaults replace the configuration only when it is nil",
+		"the defaults can replace a configuration the caller did supply: that configuration is then never validated, an out-of-range value (the boundary that was taken for 'unset') is accepted, and the manifest is written with the defaults instead of what was asked for")
+}
+
+// ruleAdapterSeekAlwaysSeeks (round 7): Seek(t) must land on the FIRST entry >= t — for a key with several versions the
+// newest one — wherever the iterator stood before. The iterator adapters have no position logic of their own: every exit
+// of IteratorAdapter.Seek passes the wrapped iterator's Seek with the caller's target ('already there' shortcuts stay on
+// an older version, or beyond a smaller target).
+func ruleAdapterSeekAlwaysSeeks(c *Ctx, r *Reporter) {
+	r.Rule("adapter-seek-always-seeks", 2)
+	for _, pk := range []string{"pkg/memtable", "pkg/sstable"} {
+		fn := c.Func(pk, "IteratorAdapter", "Seek")
+		cons := strings.TrimPrefix(pk, "pkg/") + ".IteratorAdapter.Seek"
+		if fn == nil {
+			r.Unresolved(cons, "not found")
+			continue
+		}
+		isSeek := func(i ssa.Instruction) bool {
+			call, ok := i.(*ssa.Call)
+			if !ok || len(fn.Params) < 2 {
+				return false
+			}
+			f := call.Call.StaticCallee()
+			if f == nil || f.Name() != "Seek" || f == fn {
+				return false
+			}
+			for _, a := range call.Call.Args {
+				if a == ssa.Value(fn.Params[1]) {
+					return true
+				}
+			}
+			return false
+		}
+		var rets []ssa.Instruction
+		for _, ret := range Returns(fn) {
+			rets = append(rets, ret)
+		}
+		bad, path := MustPass(fn, rets, isSeek)
+		if bad != nil {
+			r.Bad(cons, c.InsPos(bad), "an exit of Seek does not pass the wrapped iterator's Seek(target): the position left is whatever it was — an older version of the key after a Next, or an entry beyond a smaller target", c.PathString(path)...)
+		} else {
+			r.OK(cons, c.FnPos(fn), "every exit passes the wrapped iterator's Seek with the caller's target")
+		}
+	}
+}
+
+// ruleServiceBeginsThroughEngine (round 7): the downgrade of a read-write request to a read-only transaction on a
+// replica happens in EngineFacade.BeginTransaction and nowhere else (TxPut/TxDelete/Commit only look at the transaction's
+// own mode, and Commit applies to storage directly). The registry finds BeginTransaction by reflection on the object it
+// is handed, so the service must hand it the engine itself: in KevoServiceServer.BeginTransaction the object passed to
+// Registry.Begin is the field s.engine — not the transaction manager or anything else obtained from the engine.
+func ruleServiceBeginsThroughEngine(c *Ctx, r *Reporter) {
+	r.Rule("remote-begin-goes-through-the-engine", 1)
+	fn := c.Func("pkg/grpc/service", "KevoServiceServer", "BeginTransaction")
+	engF := c.Field("pkg/grpc/service", "KevoServiceServer", "engine")
+	cons := "service.KevoServiceServer.BeginTransaction"
+	if fn == nil || engF == nil {
+		r.Unresolved(cons+" / KevoServiceServer.engine", "not found")
+		return
+	}
+	n := 0
+	bad := ""
+	var pos ssa.Instruction
+	AllInstrs(fn, true, func(_ *ssa.Function, ins ssa.Instruction) {
+		call, ok := ins.(*ssa.Call)
+		if !ok || opName(call) != "Registry.Begin" {
+			return
+		}
+		n++
+		pos = ins
+		if len(call.Call.Args) < 2 {
+			bad = "unexpected arity"
+			return
+		}
+		v := call.Call.Args[1]
+		for i := 0; i < 3; i++ {
+			switch x := v.(type) {
+			case *ssa.MakeInterface:
+				v = x.X
+				continue
+			case *ssa.ChangeInterface:
+				v = x.X
+				continue
+			}
+			break
+		}
+		if !isLoadOfField(v, engF) {
+			bad = Path(v)
+		}
+	})
+	if n == 0 {
+		r.Undecided(cons, c.FnPos(fn), "no Registry.Begin call found")
+		return
+	}
+	r.Check(bad == "", cons, c.InsPos(pos), "the registry is handed the engine itself", "the registry is handed "+bad+" instead of the engine: the transaction is begun behind EngineFacade.BeginTransaction, the only place that turns a read-write request into a read-only transaction on a replica — a remote client gets a real read-write transaction there and its commit changes replicated data")
+}
+
+// ruleConnTrackingDroppedOnlyWhenEmpty (round 7): RegistryImpl.connectionTxs is how CleanupConnection finds the
+// transactions a vanished client left open. An entry of that map may be deleted only when the connection's own set is
+// empty (len(set) == 0) — or by CleanupConnection itself, which rolls every member back first. Dropping it while a
+// transaction is still in the set orphans that transaction: nothing rolls it back when the connection goes away.
+func ruleConnTrackingDroppedOnlyWhenEmpty(c *Ctx, r *Reporter) {
+	r.Rule("connection-tracking-dropped-only-when-empty", 1)
+	connF := c.Field("pkg/transaction", "RegistryImpl", "connectionTxs")
+	if connF == nil {
+		r.Unresolved("transaction.RegistryImpl.connectionTxs", "not found")
+		return
+	}
+	n := 0
+	for _, fn := range c.KevoFns {
+		if pkgOf(fn) != "pkg/transaction" {
+			continue
+		}
+		AllInstrs(fn, false, func(_ *ssa.Function, ins ssa.Instruction) {
+			call, ok := ins.(*ssa.Call)
+			if !ok {
+				return
+			}
+			b, isB := call.Call.Value.(*ssa.Builtin)
+			if !isB || b.Name() != "delete" || len(call.Call.Args) < 2 || !isLoadOfField(call.Call.Args[0], connF) {
+				return
+			}
+			n++
+			cons := FnName(topParent(fn)) + ":delete(connectionTxs)"
+			if topParent(fn).Name() == "CleanupConnection" || topParent(fn).Name() == "GracefulShutdown" {
+				r.OK(cons, c.InsPos(ins), "the sweep of a whole connection (every member is rolled back: C17/no-orphan-removal)")
+				return
+			}
+			empty := func(cond ssa.Value) (bool, bool) {
+				bo, ok := cond.(*ssa.BinOp)
+				if !ok {
+					return false, false
+				}
+				x, y, op := bo.X, bo.Y, bo.Op
+				if _, isK := constInt(x); isK {
+					x, y = y, x
+					op = flipOp(op)
+				}
+				k, isK := constInt(y)
+				la := lenArgOf(x)
+				if !isK || la == nil {
+					return false, false
+				}
+				if _, isMap := la.Type().Underlying().(*types.Map); !isMap {
+					return false, false
+				}
+				switch {
+				case op == token.EQL && k == 0, op == token.LSS && k == 1, op == token.LEQ && k == 0:
+					return true, false
+				case op == token.NEQ && k == 0, op == token.GTR && k == 0, op == token.GEQ && k == 1:
+					return false, true
+				}
+				return false, false
+			}
+			r.Check(GuardedBy(call.Block(), empty), cons, c.InsPos(ins), "guarded by len(set) == 0",
+				"a connection's tracking entry is dropped although its set may still hold a transaction: CleanupConnection will not find that transaction, it is not rolled back when its client goes away and keeps its database lock until the idle sweep (if any) finds it")
+		})
+	}
+	if n == 0 {
+		r.Undecided("transaction.RegistryImpl.connectionTxs", "-", "no delete from the connection map found")
+	}
+}
+
+// ruleSessionStreamNeverCleared (round 7): senders reach a ReplicaSession through their own pointer (the StreamWAL
+// handler polls with it every 100 ms) and call session.Stream.Send without a nil test; a session dropped by the heartbeat
+// still has a running handler. ReplicaSession.Stream is therefore never assigned nil: teardown marks the session
+// (Connected/Active) but leaves the stream in place.
+func ruleSessionStreamNeverCleared(c *Ctx, r *Reporter) {
+	r.Rule("session-stream-is-never-cleared", 1)
+	streamF := c.Field("pkg/replication", "ReplicaSession", "Stream")
+	if streamF == nil {
+		r.Unresolved("replication.ReplicaSession.Stream", "not found")
+		return
+	}
+	n := 0
+	for _, fn := range c.KevoFns {
+		if pkgOf(fn) != "pkg/replication" {
+			continue
+		}
+		AllInstrs(fn, false, func(_ *ssa.Function, ins ssa.Instruction) {
+			st, ok := ins.(*ssa.Store)
+			if !ok || fieldVarOf(st.Addr) != streamF {
+				return
+			}
+			n++
+			cons := FnName(topParent(fn)) + ":store(Stream)"
+			r.Check(!isNilConst(st.Val), cons, c.InsPos(ins), "assigns a stream", "ReplicaSession.Stream is set to nil: the StreamWAL handler of a session that was dropped (heartbeat timeout) is still polling and calls session.Stream.Send without a nil test — the handler goroutine panics and, gRPC not recovering handler panics, the primary process dies")
+		})
+	}
+	if n == 0 {
+		r.Undecided("replication.ReplicaSession.Stream", "-", "no store found")
+	}
 }
